@@ -392,6 +392,7 @@ func (l *log) delete(offsets map[int64]struct{}) ([]Message, int64, error) {
 	}
 
 	wasWriter := false
+	var writerVersion message.Version
 	l.writerMu.Lock()
 	if l.writer.reader == rdr {
 		wasWriter = true
@@ -399,6 +400,7 @@ func (l *log) delete(offsets map[int64]struct{}) ([]Message, int64, error) {
 			l.writerMu.Unlock()
 			return nil, 0, err
 		}
+		writerVersion = l.writer.messages.Version()
 	}
 	l.writerMu.Unlock()
 
@@ -407,7 +409,7 @@ func (l *log) delete(offsets map[int64]struct{}) ([]Message, int64, error) {
 	if l.opts.Version.KeepRewriteVersion {
 		var detected message.Version
 		if wasWriter {
-			detected = l.writer.messages.Version()
+			detected = writerVersion
 		} else {
 			mr, err := message.OpenReader(rdr.segment.Log, rdr.segment.Offset)
 			if err != nil {
